@@ -220,7 +220,7 @@ reg("C13",
     harness=STATES + ["c13.c"],
     stages=[dict(variant="asan", cases={"quick": 1600, "thorough": 30000}, timeout={"quick": 900, "thorough": 3400})],
     floors={"quick": {"connect_scenarios": 1400, "multi_attempt_or_resolver_fault_cases": 600, "connections_established": 500, "connect_failures_verified": 200, "resolver_fault_cases_ok": 100,
-                      "happy_eyeballs_ipv4_delay_checked": 20, "local_addr_verified": 80, "server_unresolvable_cases": 10, "distinct_nontrivial": 150},
+                      "happy_eyeballs_ipv4_delay_checked": 20, "local_addr_verified": 80, "server_unresolvable_cases": 10, "directed_two_family_shapes": 80, "local_address_busy_cases": 15, "distinct_nontrivial": 150},
             "thorough": {"connect_scenarios": 28000, "multi_attempt_or_resolver_fault_cases": 12000, "local_addr_verified": 1500, "server_unresolvable_cases": 200, "distinct_nontrivial": 300}},
     rule="one evaluation = one (list, assignment, resolver behaviour, algorithm, transport, local address, timeouts, first observer) scenario; non-trivial = at least two connect attempts or a resolver fault; distinct = distinct (transport, algorithm, list length class, attempts, outcome, observer, local-addr, family mix) signatures",
     assumptions=["with xcm.local_addr (an IPv4 address) the generated lists are IPv4-only",
